@@ -42,6 +42,12 @@ class IsDictInsertionOrdered(OmegaMixin, Contract):
 
     def apply(self, eng, st, this, args, n):
         owner = eng.cur_contract
+        if not hasattr(owner, 'omega'):
+            # a caller whose contract does not talk about the mode set: the answer is some function of the (unknown) set
+            mode_of = z3.Function('namespace_is_insertion_ordered_at', Str, z3.IntSort(), z3.BoolSort())
+            inherit = args[1] if len(args) > 1 and not isinstance(args[1], Opaque) else z3.BoolVal(True)
+            e = z3.IntVal(st.ghost['epoch'])
+            return [(st, z3.Or(mode_of(args[0], e), z3.And(inherit, mode_of(EMPTY, e))))]
         om = st.heap[owner.omega]
         inherit = args[1] if len(args) > 1 and not isinstance(args[1], Opaque) else z3.BoolVal(True)
         return [(st, z3.Or(om.contains((args[0],)), z3.And(inherit, om.contains((EMPTY,)))))]
